@@ -281,6 +281,38 @@ pub fn generate(thorough: bool, seed: u64, out: &mut dyn Write) {
         let (u1, u3) = if hidden { (rng.below(256) as u8, rng.below(65536) as u16) } else { (0, 0) };
         writeln!(out, "{}", gear_line(rng.below(256) as u8, u1, u3, &sets)).unwrap();
     }
+
+    // ---- mutated encodings (`mut <seed> <k> <case>`, Base/Mutate.lean): 1..3 damaged bytes in an
+    // encoded preset / gear-set file; the model of the code and the code must still agree on what
+    // the file parses to and on what the parsed value is written as.  Own stream.
+    let mut mrng = Rng::new(seed, "C09-mut");
+    let n = if thorough { 40_000 } else { 400 };
+    for i in 0..n {
+        let k = 1 + mrng.below(3);
+        let mseed = mrng.next() >> 1;
+        let line = if i % 8 < 5 {
+            let c = match mrng.below(4) {
+                0 => {
+                    let target = 163 - mrng.below(3) as usize;
+                    exact_text(&mut mrng, target, 163)
+                }
+                1 => utf8_text(&mut mrng, 12),
+                _ => utf8_text(&mut mrng, 163),
+            };
+            char_line("char", mrng.u32_edge(), &appearance(&mut mrng), mrng.u32_edge(), &c)
+        } else {
+            let nsets = match mrng.below(6) {
+                0 => 1,
+                1 => 100,
+                _ => mrng.range(1, 12),
+            } as usize;
+            let hidden = i % 2 == 1;
+            let sets = random_sets(&mut mrng, nsets, hidden, false);
+            let (u1, u3) = if hidden { (mrng.below(256) as u8, mrng.below(65536) as u16) } else { (0, 0) };
+            gear_line(mrng.below(256) as u8, u1, u3, &sets)
+        };
+        writeln!(out, "mut {} {} {}", mseed, k, line).unwrap();
+    }
 }
 
 // ------------------------------------------------------------------------------------------
@@ -367,10 +399,17 @@ fn same_or(file: &[u8], w: Option<Vec<u8>>) -> String {
     }
 }
 
+/// a write that panics is that part's answer (`panic`), not the whole case's: the value a damaged
+/// file parses to (a comment with a NUL inside) can make `write_string` panic
+fn guarded_write(f: impl FnOnce() -> String) -> String {
+    let r = guarded(std::panic::AssertUnwindSafe(f));
+    if r.starts_with("panic:") { "panic".into() } else { r }
+}
+
 fn run_char(file: &[u8], cf: &[&str]) -> String {
     let Some(d) = CharacterData::from_existing(file) else { return "none".into() };
     let f = dump_char(&d);
-    let w = same_or(file, d.write_to_buffer());
+    let w = guarded_write(|| same_or(file, d.write_to_buffer()));
     // direct build from the abstract case
     let built = (|| {
         let a = unhex(cf[2])?;
@@ -380,7 +419,7 @@ fn run_char(file: &[u8], cf: &[&str]) -> String {
         build_char(cf[1].parse().ok()?, &a, cf[3].parse().ok()?, String::from_utf8(unhex(cf[4])?).ok()?)
     })();
     let dd = match built {
-        Some(b) => same_or(file, b.write_to_buffer()),
+        Some(b) => guarded_write(|| same_or(file, b.write_to_buffer())),
         None => "unbuildable".into(),
     };
     format!("F[{}]|W[{}]|D[{}]", f, w, dd)
@@ -432,11 +471,15 @@ fn dump_gear(g: &GearSets) -> String {
     format!("{}|{}|{}", g.current_gearset, g.gearsets.len(), if sets.is_empty() { ".".to_string() } else { sets.join(";") })
 }
 
+/// a written file that differs from the input: its length and FNV-1a (32 bit) hash
 fn diff_or_same(file: &[u8], w: Option<Vec<u8>>) -> String {
     match w {
         None => "write-none".into(),
         Some(w) if w == file => "same".into(),
-        Some(w) => format!("diff:{}", w.len()),
+        Some(w) => {
+            let h = w.iter().fold(2166136261u32, |h, b| (h ^ *b as u32).wrapping_mul(16777619));
+            format!("diff:{}:{}", w.len(), h)
+        }
     }
 }
 
@@ -520,6 +563,11 @@ fn run_gear(file: &[u8], cf: &[&str]) -> String {
 
 pub fn run(case: &str, input: &str) -> String {
     let f: Vec<&str> = input.split(' ').collect();
+    // `mut <seed> <k> <ordinary case>`: the abstract case behind a damaged file
+    let case = match case.strip_prefix("mut ") {
+        Some(r) => r.splitn(3, ' ').nth(2).unwrap_or(""),
+        None => case,
+    };
     let cf: Vec<String> = case.split(' ').map(|s| s.to_string()).collect();
     match f.as_slice() {
         ["char", file] if cf.len() == 5 => {
